@@ -40,3 +40,14 @@ package reload
 //@ func sanitizeRejectionCode
 //@   props C38
 //@   ensures [closed-alphabet] streq(result, "read_failed") || streq(result, "parse_failed") || streq(result, "invalid") || streq(result, "unsupported") || streq(result, "prepare_failed") || streq(result, "rejected")
+
+// The watcher observes the CONFIGURED path (cleaned, never resolved through links): the directory watched, the name
+// filtered on, the initial fingerprint and the path the loop re-reads are all derived from it, so replacing what the
+// path points at (a link swap) is seen as new content.
+//@ func watchWithOptions
+//@   props C38
+//@   at-call Clean as cl: assert streq(arg0, configPath)
+//@   at-call Dir as d: assert called(cl) && streq(arg0, res(cl))
+//@   at-call Base as b: assert called(cl) && streq(arg0, res(cl))
+//@   at-call fingerprint as fp: assert [initial-observation-is-of-the-configured-path] called(cl) && streq(arg0, res(cl))
+//@   at-call runWatchLoop as loop: assert [the-loop-re-reads-the-configured-path] called(cl) && called(d) && called(b) && streq(arg1, res(cl)) && streq(arg2, res(d)) && streq(arg3, res(b))
